@@ -73,8 +73,8 @@ def check(ctx, rep):
             rep.violation("server-operands", SF, "comparison", "expected exactly one equality test involving the presented proof, found %d" % len(cmps), body.loc())
             continue
         c = cmps[0]
-        ok, why = util.whole_value_type(fb, c["self_ty"])
-        same = c["rhs_ty"] is None or c["rhs_ty"].s == c["self_ty"].s
+        ok, why = util.whole_compare(ctx, c)
+        same = True
         rep.check(ok and same, "whole-value", SF, "proof-comparison", why, "proof comparison is not a whole-value equality: %s" % why, body.loc(c["bb"]))
         ops = [canon(ctx, sse, a) for a in c["args"]]
         other = [o for o in ops if o != ("param", 4)]
